@@ -108,10 +108,20 @@ def _guard(where, test):
     raise TranslateError(f"{where}: line {test.lineno}: condition not in the statement language: {ast.unparse(test)}")
 
 
+def _is_plain_logging(st):
+    """self.logger.debug/info/warning/error(...): no effect on any resource, not a statement of the model
+    (logger.critical IS kept: the model and the harness both see it)"""
+    if isinstance(st, ast.Expr) and isinstance(_strip_await(st.value), ast.Call):
+        return _dotted(_strip_await(st.value).func) in ("self.logger.debug", "self.logger.info", "self.logger.warning", "self.logger.error")
+    return False
+
+
 def _flat(where, stmts):
     """statements (plain calls and one-armed ifs around plain calls) -> list of Lean GS terms"""
     out = []
     for st in stmts:
+        if _is_plain_logging(st):
+            continue
         if isinstance(st, ast.If):
             if st.orelse:
                 raise TranslateError(f"{where}: line {st.lineno}: if/else is not in the statement language")
